@@ -135,6 +135,34 @@ def execute(case):
             projects[pi].new_module(builder.SIMPLE_TYPES[op.get("t", 0) % len(builder.SIMPLE_TYPES)])
             log.append((i, "mod", pi))
             continue
+        if k == "ctl":
+            # an ordinary controller write (for a MultiCtl: its value, which propagates along its
+            # outgoing links) between link requests: it must not touch any link table
+            pi = op.get("p", 0) % 2
+            mods_ = [m for m in projects[pi].modules if m is not None]
+            m = mods_[op.get("m", 0) % len(mods_)]
+            before_t = tables(projects[pi])
+            try:
+                if type(m).__name__ == "MultiCtl" and op.get("v", 0) % 3 != 2:
+                    if op.get("v", 0) % 3 == 0:
+                        m.value = (op.get("v", 0) >> 2) % 32769
+                    else:
+                        m.reflect((op.get("v", 0) >> 2) % 4)
+                else:
+                    names = [n for n, c in m.controllers.items() if c.attached(m)]
+                    if names:
+                        builder.set_controller(m, names[(op.get("v", 0) >> 2) % len(names)], op.get("v", 0) >> 9)
+            except (KeyboardInterrupt, HarnessTimeout):
+                raise
+            except Exception as e:
+                if not env.raised_in_rv(e):
+                    raise
+            probes["controller_write_between_requests"] = probes.get("controller_write_between_requests", 0) + 1
+            if tables(projects[pi]) != before_t:
+                violations.append(_v("controller_write_changed_link_tables", type=type(m).__name__, operands="n/a", request="ctl", detail={"op": i}))
+            check_project(projects[pi], models[pi], violations, i, "AB"[pi], {"operands": "n/a", "request": "ctl"})
+            log.append((i, "ctl", pi, type(m).__name__))
+            continue
         if k == "reload":
             # the party saves its project, an outside program blanks some unlinked module
             # sections to a bare SEND, and the party reopens the file: a project with empty
@@ -269,6 +297,10 @@ def generate_hub(r):
     na = r.randint(8, 24)
     ops = [{"k": "setup", "na": na, "nb": 1, "t": r.randrange(1000)}]
     hub = r.randrange(100)
+    if r.random() < 0.5:
+        # the hub is a MultiCtl (a module whose controllers act on its outgoing links)
+        ops.append({"k": "mod", "p": 0, "t": [c.__name__ for c in builder.SIMPLE_TYPES].index("MultiCtl")})
+        hub = na + 1
     dests = [r.randrange(100) for _ in range(r.randint(3, 24))]
     for _ in range(r.randint(20, 90)):
         x = r.random()
@@ -277,8 +309,10 @@ def generate_hub(r):
             ops.append({"k": "link", "form": r.choice(["call", "rshift"]), "from": [hub], "to": [d], "p": 0})
         elif x < 0.9:
             ops.append({"k": "link", "form": r.choice(["call", "rshift"]), "from": [hub], "to": [d], "neg": 2, "p": 0})
-        elif x < 0.95:
+        elif x < 0.93:
             ops.append({"k": "link", "form": "call", "from": [hub], "to": [r.choice(dests) for _ in range(r.randint(2, 5))], "neg": r.getrandbits(6) & ~1, "p": 0})
+        elif x < 0.97:
+            ops.append({"k": "ctl", "p": 0, "m": hub if r.random() < 0.7 else r.randrange(100), "v": r.getrandbits(40)})
         else:
             ops.append({"k": "link", "form": "lshift", "from": [r.choice(dests)], "to": [hub], "p": 0})
     return {"property": PROPERTY, "world": "links", "ops": ops}
@@ -297,6 +331,9 @@ def generate(seed, i, tier="quick"):
             continue
         if r.random() < (0.25 if reloads else 0.05):
             ops.append({"k": "mod", "p": 0 if reloads else r.randrange(2), "t": r.randrange(1000)})
+            continue
+        if r.random() < 0.08:
+            ops.append({"k": "ctl", "p": r.randrange(2), "m": r.randrange(100), "v": r.getrandbits(40)})
             continue
         op = builder.gen_link_op(r, foreign_p=fp)
         op["p"] = 0 if r.random() < 0.8 else 1
